@@ -97,6 +97,9 @@ def main():
     ok = True
     for f in sorted(set(nat) | set(mod)):
         a, b = nat.get(f), mod.get(f)
+        if a != b and a is not None and b is not None and sorted(a.split('\n\n')) == sorted(b.split('\n\n')):
+            print('ORDER-ONLY difference in', f, '(hash iteration order)')
+            continue
         if a != b:
             ok = False
             print('DIFF in', f)
